@@ -257,50 +257,44 @@ def retry_loop(ctx):
 
 
 def step_reported(ctx, fu):
+    """R12.4 on the traces of update() (pvs/update_trace.py): the step handed to the first solve of an update is the tentative
+    step, every later solve of the same update continues from the step its predecessor returned, and the step of the last solve
+    is what is recorded and returned."""
+    from ..update_trace import all_traces
+    from ..smallstep import render
     repo = ctx.repo
-    fn = fu.node
-    pm = parent_map(fn)
-    asg = assignments(fn)
-    from ..dataflow import expanded_text
-    # the step variable by role: third result of adaptive_euler_step
-    calls = [n for n in own_nodes(fn) if isinstance(n, ast.Assign) and isinstance(n.value, ast.Call)
-             and norm(n.value.func) == "self.adaptive_euler_step" and isinstance(n.targets[0], ast.Tuple) and len(n.targets[0].elts) == 3]
-    if len(calls) != 1:
-        raise AnalysisError("update() no longer unpacks three results of self.adaptive_euler_step")
-    dtn = norm(calls[0].targets[0].elts[2])
-    dts = asg.get(dtn, [])
-    srcs = []
-    for s, v in dts:
-        g = [("" if br == "true" else "not ") + expanded_text(fn, x.test) for x, br in guards_of(fn, s, pm) if isinstance(x, ast.If)]
-        srcs.append((norm(v) if v is not None else norm(s)[:70], g))
-    from_step = [x for x in srcs if "adaptive_euler_step" in x[0]]
-    from_tent = [x for x in srcs if x[0] == "self.tentative_dt"]
-    # "screening iteration 0": the guard compares the loop variable of the screening loop with 0
-    loopvars = {norm(l.target) for l in own_nodes(fn) if isinstance(l, ast.For) and any(x is calls[0] for x in ast.walk(l))}
-    ok = len(srcs) == 2 and len(from_step) == 1 and len(from_tent) == 1 and len(from_tent[0][1]) == 1 and \
-        any(from_tent[0][1][0] in (f"{v} == 0", f"0 == {v}") for v in loopvars)
-    ctx.ob("R12.4", "dt is (re)assigned only from tentative_dt in screening iteration 0 and from adaptive_euler_step", ok,
-           detail=srcs, where=fu.fq, construct="definitions of dt in update", loc=loc(fu, fn),
-           message=f"dt definitions: {srcs}", consequence="a later screening iteration restarts from the tentative step, or dt is altered after the solve")
-    rec = [n for n in own_nodes(fn) if isinstance(n, ast.Call) and norm(n.func) == "running_state.append"
-           and n.args and isinstance(n.args[0], ast.Constant) and n.args[0].value == "dt"]
-    ok = len(rec) == 1 and norm(rec[0].args[1]) == dtn
-    ctx.ob("R12.4", "the recorded dt is the variable dt", ok, detail=[norm(r) for r in rec], where=fu.fq,
-           construct="running_state.append('dt', ...)", message=f"{[norm(r) for r in rec]}",
+    bad_in, bad_rec, bad_ret = [], [], []
+    n = 0
+    for t in all_traces(repo):
+        sc = t.scenario
+        tag = ", ".join(f"{k}={v}" for k, v in sc.items() if k != "max_iterations")
+        eulers = t.calls("adaptive_euler_step")
+        for k, ev in enumerate(eulers):
+            n += 1
+            got = render(ev.args[-1]) if ev.args else render(ev.kwargs.get("dt"))
+            want = "self.tentative_dt" if k == 0 else f"dt#{k - 1}"
+            if got != want:
+                bad_in.append(f"[{tag}] solve #{k} starts from {got}, expected {want}")
+        if t.outcome[0] != "return" or not eulers:
+            continue
+        last = f"dt#{len(eulers) - 1}"
+        rec = [e for e in t.calls("append") if e.name.startswith("running_state") and e.args and e.args[0] == "dt"]
+        if len(rec) != 1 or render(rec[0].args[1]) != last:
+            bad_rec.append(f"[{tag}] records {[render(e.args[1]) for e in rec]}, the accepted solve used {last}")
+        val = t.outcome[1]
+        first = val.parts[2][0] if getattr(val, "parts", None) and val.parts[0] == "call" and val.parts[2] else val.parts[3].get("dt") if getattr(val, "parts", None) else None
+        if render(first) != last:
+            bad_ret.append(f"[{tag}] returns dt = {render(first)}, the accepted solve used {last}")
+    if n < 100:
+        raise AnalysisError(f"only {n} solves in the traces of update()")
+    ctx.ob("R12.4", "dt is (re)assigned only from tentative_dt in screening iteration 0 and from adaptive_euler_step", not bad_in,
+           detail=bad_in[:4], where=fu.fq, construct="definitions of dt in update", loc=loc(fu, fu.node),
+           message=f"dt definitions: {bad_in[:1]}", consequence="a later screening iteration restarts from the tentative step, or dt is altered after the solve")
+    ctx.ob("R12.4", "the recorded dt is the variable dt", not bad_rec, detail=bad_rec[:4], where=fu.fq,
+           construct="running_state.append('dt', ...)", message=f"{bad_rec[:1]}",
            consequence="running_state/dt differs from the step actually taken")
-    rets = [n for n in own_nodes(fn) if isinstance(n, ast.Return) and isinstance(n.value, ast.Call) and norm(n.value.func) == "SolverResult"]
-    first = None
-    res = []
-    if len(rets) == 1 and rets[0].value.args:
-        a0 = rets[0].value.args[0]
-        if isinstance(a0, ast.Starred) and isinstance(a0.value, ast.Name):
-            res = [v for s, v in asg.get(a0.value.id, []) if isinstance(v, ast.List)]
-            first = norm(res[0].elts[0]) if len(res) == 1 and res[0].elts else None
-        else:
-            first = norm(a0)
-    ok = first == dtn
-    ctx.ob("R12.4", "SolverResult.dt is the variable dt", ok, detail=[norm(r)[:80] for r in res], where=fu.fq,
-           construct="results[0]", message="the first result is not dt", consequence="the runner advances the clock by another step")
+    ctx.ob("R12.4", "SolverResult.dt is the variable dt", not bad_ret, detail=bad_ret[:4], where=fu.fq,
+           construct="results[0]", message=f"the first result is not dt: {bad_ret[:1]}", consequence="the runner advances the clock by another step")
     fr = repo.func(RUNNER, "Runner._run_stage")
     # new_dt, *self.values = function_result ; self.dt = new_dt ; self.time += self.dt   (local names free)
     unpack = [n for n in own_nodes(fr.node) if isinstance(n, ast.Assign) and isinstance(n.targets[0], ast.Tuple) and len(n.targets[0].elts) == 2
